@@ -65,7 +65,13 @@ func readStreamedBlock(r io.Reader, scale uint8) (block *labels.Block, compresse
 	}
 
 	block = new(labels.Block)
-	err = block.UnmarshalBinary(uncompressed)
+	if err = block.UnmarshalBinary(uncompressed); err != nil {
+		err = fmt.Errorf("bad block %s: %v", bcoord, err)
+		return
+	}
+	if err = block.Validate(); err != nil {
+		err = fmt.Errorf("bad block %s: %v", bcoord, err)
+	}
 	return
 }
 
